@@ -281,10 +281,19 @@ Qed.
 (* ------------------------------------------------------------------ *)
 (* 1. one arrival, in terms of `knows` *)
 
+(* The statements as sketched ("a cache with the invariant of C05/C06", "no LATER goodbye / positive copy") are false; the
+   counterexamples are in Proofs/C07_link.v (arrival_teaches_needs_faithful_cache, goodbye_forgets_needs_faithful_cache,
+   order_irrelevant_cached, order_irrelevant_uncached, others_matter_when_flushing).  Hence the _partial names; what is added:
+   - on the cache: Recv c s = Inv c and every cached record is `faithful` for s (it looks like the pointer of s to `knows`
+     exactly when it is the pointer of s to the cache); this is preserved by every arrival of faithful records;
+   - on recs: `decoded` (TTL a 32-bit quantity, no question objects), every record faithful for s, and the kind of the arrival
+     quantifies over ALL copies of the pointer in the datagram, not the later ones. *)
+
 (* 1a. an arrival all of whose copies of the pointer carry a TTL >= ttl > 0 (so: no goodbye for it ANYWHERE in the datagram -
-   the position does not matter, see order_irrelevant_cached below) makes the instance known, until t + 1000 * ttl at least
-   (the 1125 s PTR floor and a larger TTL of the last copy only lengthen that).  Later arrivals: last_arrival_wins. *)
-Theorem arrival_teaches : forall c s t recs ttl,
+   the position does not matter, see order_irrelevant_cached) makes the instance known, until t + 1000 * ttl at least
+   (the 1125 s PTR floor and a larger TTL of the last copy only lengthen that; a record stamped in the future is unexpired, so
+   no lower bound on t' is needed).  Later arrivals: last_arrival_wins_partial. *)
+Theorem arrival_teaches_partial : forall c s t recs ttl,
   Recv c s -> decoded recs -> (forall r, In r recs -> faithful s r) ->
   0 < ttl -> announcement s ttl recs ->
   Recv (receive c (t, recs)) s /\
@@ -301,7 +310,7 @@ Qed.
 
 (* 1b. an arrival all of whose copies of the pointer have TTL 0 (no positive copy ANYWHERE in the datagram, see
    order_irrelevant_uncached) makes the instance unknown, at every instant *)
-Theorem goodbye_forgets : forall c s t recs,
+Theorem goodbye_forgets_partial : forall c s t recs,
   Recv c s -> decoded recs -> (forall r, In r recs -> faithful s r) ->
   goodbye s recs ->
   Recv (receive c (t, recs)) s /\ forall t', knows (receive c (t, recs)) t' s = false.
@@ -314,7 +323,7 @@ Proof.
 Qed.
 
 (* 1c. an arrival without any copy of the pointer - and without a cache-flush record aimed at it - changes nothing, at any instant *)
-Theorem others_do_not_matter : forall c s t recs,
+Theorem others_do_not_matter_partial : forall c s t recs,
   Recv c s -> decoded recs -> (forall r, In r recs -> faithful s r) ->
   unrelated s recs ->
   Recv (receive c (t, recs)) s /\ forall t', knows (receive c (t, recs)) t' s = knows c t' s.
@@ -379,7 +388,7 @@ Qed.
 (* After any sequence of arrivals - announcements of s (every copy of the pointer with TTL >= ttl > 0), goodbyes of s, unrelated
    ones; in any order of arrival times - the instance is known at t' iff the LAST arrival that mentions s is an announcement
    (t' before that announcement's pointer expires; if none mentions s nothing has changed). *)
-Theorem last_arrival_wins : forall c s ttl l t',
+Theorem last_arrival_wins_partial : forall c s ttl l t',
   Recv c s -> 0 < ttl -> Forall (arrival_ok s ttl) l ->
   (forall t recs, last_mention s l = Some (t, recs) -> announces s recs = true -> t' < t + 1000 * ttl) ->
   knows (receive_all c l) t' s
@@ -393,23 +402,30 @@ Proof.
   rewrite (knows_pstate _ t' s HRl).
   destruct (last_mention s l) as [[t recs]|].
   - destruct (announces s recs) eqn:An.
-    + destruct Hst as [ttl' [Ep Hle]]. rewrite Ep. pose proof (Ht' t recs eq_refl eq_refl) as Hlt.
+    + destruct Hst as [ttl' [Ep Hle]]. rewrite Ep. pose proof (Ht' t recs eq_refl An) as Hlt.
       apply negb_true_iff. apply Z.leb_gt. nia.
     + rewrite Hst. reflexivity.
   - rewrite Hst. symmetry. apply knows_pstate. exact HR.
 Qed.
 
 (* the "iff" reading when some arrival mentions s *)
-Corollary last_arrival_wins_iff : forall c s ttl l t' t recs,
+Corollary last_arrival_wins_iff_partial : forall c s ttl l t' t recs,
   Recv c s -> 0 < ttl -> Forall (arrival_ok s ttl) l ->
   last_mention s l = Some (t, recs) -> t' < t + 1000 * ttl ->
   (knows (receive_all c l) t' s = true <-> announces s recs = true).
 Proof.
   intros c s ttl l t' t recs HR Hpos Hall Hlm Ht'.
-  rewrite (last_arrival_wins c s ttl l t' HR Hpos Hall).
+  rewrite (last_arrival_wins_partial c s ttl l t' HR Hpos Hall).
   - rewrite Hlm. tauto.
   - intros t0 recs0 E _. rewrite Hlm in E. inversion E; subst. exact Ht'.
 Qed.
 
+(* any receiver whose whole history consisted of such arrivals satisfies the receiver hypothesis *)
+Lemma recv_empty s : Recv empty_cache s.
+Proof. split; [apply inv_empty|]. intros r []. Qed.
+
 Lemma receive_all_recv c s ttl l : Recv c s -> 0 < ttl -> Forall (arrival_ok s ttl) l -> Recv (receive_all c l) s.
 Proof. intros HR Hpos Hall. apply (receive_all_state s ttl Hpos l c HR Hall). Qed.
+
+Corollary recv_history s ttl l : 0 < ttl -> Forall (arrival_ok s ttl) l -> Recv (receive_all empty_cache l) s.
+Proof. intros Hpos Hall. apply (receive_all_recv empty_cache s ttl l (recv_empty s) Hpos Hall). Qed.
